@@ -44,6 +44,67 @@ def _fed_by_rec(func, stmt, rec):
     return False
 
 
+def _skipped_children(cfg, lp, rec):
+    """must-pass-through: inside the children loop every normal path from the start of an iteration to the next one passes
+    the recursive call, except behind tests no export-shaped entry satisfies (`child is None`, `not isinstance(child, dict)`).
+    -> None (every entry imported) | "falsy" (an entry is skipped on its truth value / length) | text of the skipping test"""
+    tname = lp.target.id
+    li = [n for n in cfg.nodes if n.kind == "loopin" and n.ast is lp]
+    heads = [n for n in cfg.nodes if n.kind == "fornext" and n.ast is lp]
+    recn = [n for n in cfg.nodes if n.ast is not None and n.kind in ("stmt", "return", "test", "assert") and any(x is rec for x in ast.walk(n.ast))
+            and not isinstance(n.ast, (ast.For, ast.While, ast.If, ast.Try, ast.With))]
+    if not li or not heads or not recn:
+        return "loop not located"
+
+    def admitted(g):
+        c_ = g.cond
+        if isinstance(c_, ast.Compare) and len(c_.ops) == 1 and norm(c_.left) == tname and isinstance(c_.comparators[0], ast.Constant) \
+                and c_.comparators[0].value is None:
+            return (isinstance(c_.ops[0], ast.Is) and g.outcome is True) or (isinstance(c_.ops[0], ast.IsNot) and g.outcome is False)
+        if isinstance(c_, ast.Call) and norm(c_.func) == "isinstance" and len(c_.args) == 2 and norm(c_.args[0]) == tname \
+                and norm(c_.args[1]) in ("dict", "Mapping", "(dict,)"):
+            return g.outcome is False
+        return False
+    guards = [g for g in cfg.nodes if g.kind == "guard"]
+    avoid = recn + [g for g in guards if admitted(g)]
+    reach = cfg.reach_from(li[0], avoid=avoid, labels_excluded=("exc",))
+    if not any(h.id in reach for h in heads) and cfg.exit.id not in reach and not any(n.kind == "loopdone" and n.ast is lp and n.id in reach for n in cfg.nodes):
+        return None
+    # which test lets an entry through without importing it?
+    for g in guards:
+        if g.id in reach and not any(r.id in cfg.reach_from(g, avoid=heads, labels_excluded=("exc",)) for r in recn):
+            c_ = g.cond
+            if (isinstance(c_, ast.Name) and c_.id == tname and g.outcome is False) or \
+                    (isinstance(c_, ast.Call) and norm(c_.func) == "len" and c_.args and norm(c_.args[0]) == tname and g.outcome is False):
+                return "falsy"
+            return "`%s` is %s" % (norm(c_)[:50], g.outcome)
+    return "a path through the loop body avoids the recursive call"
+
+
+def rule_children_all_imported(ctx, typer, rule):
+    """the JSON round trip (C11) rests on the same loop: every entry of the children list reaches the recursive import"""
+    try:
+        imp = ctx.p.func("DictImporter", "__import")
+    except AnalysisError:
+        ctx.notes.append("%s: DictImporter.__import not located; the children loop is C10's X5" % rule)
+        return 0
+    n = 0
+    for lp in [x for x in walk_own(imp.node) if isinstance(x, ast.For) and isinstance(x.target, ast.Name)]:
+        for c in find_calls(imp, lambda c: norm(c.func) == "self.__import"):
+            if any(x is c for x in ast.walk(lp)) and any(isinstance(a, ast.Name) and a.id == lp.target.id for a in list(c.args) + [k.value for k in c.keywords]):
+                n += 1
+                skipped = _skipped_children(typer.cfg_of(imp), lp, c)
+                if skipped == "falsy":
+                    ctx.viol(rule, imp, lp, "a child entry is skipped when it is falsy: an attribute-less leaf is serialised as `{}`, which is "
+                             "falsy after loading, so that node is dropped and import_(export(t)) has fewer nodes than t",
+                             construct="__import: falsy children skipped")
+                elif skipped:
+                    ctx.extra.setdefault("undecided", []).append("%s: DictImporter.__import does not import every entry of the children list (%s)" % (rule, skipped))
+                else:
+                    ctx.inst(rule, imp, lp, "every entry of the children list reaches the recursive import (skips only behind `is None` / non-dict tests)")
+    return n
+
+
 def run(ctx):
     p = ctx.p
     typer = typer_for(ctx)
@@ -367,12 +428,18 @@ def run(ctx):
     else:
         ctx.viol("X5", imp, imp.node, "attributes are the copy minus %s, expected exactly ['children']" % keys, construct="__import: removed keys %s" % keys)
     recs = find_calls(imp, lambda c: norm(c.func) == "self.__import")
+    if not recs and any(isinstance(n_, (ast.While, ast.For)) for n_ in walk_own(imp.node)) and ctor:
+        # an importer that walks the dictionary with its own stack/queue instead of recursing: order of creation and the parent
+        # handed to each node are not followed by the rules below
+        ctx.extra["X3_undecided"] = ctx.extra.get("X3_undecided") or "C10: DictImporter.__import is not recursive - this implementation of the import is not followed"
+        recs = None
     node_name = None
     for n in walk_own(imp.node):
         if isinstance(n, ast.Assign) and ctor and n.value is ctor[0] and isinstance(n.targets[0], ast.Name):
             node_name = n.targets[0].id
     loops = [n for n in walk_own(imp.node) if isinstance(n, ast.For)]
-    okr = False
+    okr = recs is None
+    recs = recs or []
     for lp in loops:
         if isinstance(lp.iter, ast.Name) and lp.iter.id in nested and isinstance(lp.target, ast.Name):
             for c in recs:
@@ -384,13 +451,25 @@ def run(ctx):
                     if norm(b.get(datap)) == lp.target.id and norm(b.get(parentp)) == node_name \
                             and all(isinstance(v_, ast.Name) and v_.id == k_ for k_, v_ in extra.items()):
                         okr = True
-    if okr:
+                        skipped = _skipped_children(typer.cfg_of(imp), lp, c)
+                        if skipped == "falsy":
+                            ctx.viol("X5", imp, lp, "a child entry is skipped when it is falsy: an attribute-less leaf is exported as the empty "
+                                     "dictionary `{}`, which is falsy, so that node is dropped on import and the imported tree has fewer nodes "
+                                     "than the exported one", construct="__import: falsy children skipped")
+                        elif skipped:
+                            ctx.extra["X3_undecided"] = ctx.extra.get("X3_undecided") or \
+                                "C10: DictImporter.__import does not import every entry of the children list (%s): whether an exported child can be skipped is not followed" % skipped
+    if okr and ctx.extra.get("X3_undecided", "").startswith("C10: DictImporter"):
+        pass
+    elif okr:
         ctx.inst("X5", imp, loops[0], "children imported in list order with parent=<node just built>")
     else:
         ctx.viol("X5", imp, imp.node, "children are not imported in list order by recursing with (child, parent=<node just built>)",
                  construct="__import: recursion")
     rets = [r for r in walk_own(imp.node) if isinstance(r, ast.Return)]
-    if len(rets) == 1 and norm(rets[0].value) == node_name:
+    if ctx.extra.get("X3_undecided", "").startswith("C10: DictImporter"):
+        pass
+    elif len(rets) == 1 and norm(rets[0].value) == node_name:
         ctx.inst("X5", imp, rets[0], "returns the node built for this dict")
     else:
         ctx.viol("X5", imp, imp.node, "__import does not return the node it built", construct="__import: return")
